@@ -152,6 +152,74 @@ func freshReplayReproduces(path string) bool {
 	return wr.ReplayState == "reproduced"
 }
 
+// isolatedRun executes run index idx in a fresh process of this test binary.
+func isolatedRun(idx int) (*WorkerResult, string) {
+	out := fmt.Sprintf("%s.iso%d", os.Getenv("VERIF_OUT"), idx)
+	defer os.Remove(out)
+	cmd := exec.Command(os.Args[0], "-test.run", "^TestVerif$", "-test.timeout", "0")
+	var env []string
+	for _, kv := range os.Environ() {
+		switch {
+		case strings.HasPrefix(kv, "VERIF_ISOLATE="), strings.HasPrefix(kv, "VERIF_OUT="), strings.HasPrefix(kv, "VERIF_WORKER="),
+			strings.HasPrefix(kv, "VERIF_NWORKERS="), strings.HasPrefix(kv, "VERIF_MAXRUNS="), strings.HasPrefix(kv, "VERIF_LOGHASH="):
+		default:
+			env = append(env, kv)
+		}
+	}
+	cmd.Env = append(env, "VERIF_OUT="+out, fmt.Sprintf("VERIF_WORKER=%d", idx), "VERIF_NWORKERS=1", "VERIF_MAXRUNS=1", "VERIF_NO_MINIMISE=1", "VERIF_NO_FRESH_REPLAY=1")
+	b, _ := cmd.CombinedOutput()
+	data, err := os.ReadFile(out)
+	if err != nil {
+		if len(b) > 3000 {
+			b = b[len(b)-3000:]
+		}
+		return nil, string(b)
+	}
+	var wr WorkerResult
+	if json.Unmarshal(data, &wr) != nil {
+		return nil, "unreadable result of the isolated run"
+	}
+	return &wr, ""
+}
+
+func mergeChild(acc *Acc, c *WorkerResult) {
+	acc.Runs += c.Runs
+	acc.SimTime += time.Duration(c.SimTimeS * float64(time.Second))
+	add := func(dst, src map[string]int64) {
+		for k, v := range src {
+			dst[k] += v
+		}
+	}
+	add(acc.Probes, c.Probes)
+	add(acc.Faults, c.Faults)
+	add(acc.Counts, c.Counts)
+	add(acc.Known, c.Known)
+	add(acc.Other, c.Other)
+	for k, v := range c.KnownMsg {
+		if _, ok := acc.KnownMsg[k]; !ok {
+			acc.KnownMsg[k] = v
+		}
+	}
+	for k, vs := range c.Distinct {
+		if acc.Distinct[k] == nil {
+			acc.Distinct[k] = map[uint64]struct{}{}
+		}
+		for _, v := range vs {
+			if len(acc.Distinct[k]) < maxDistinct {
+				acc.Distinct[k][v] = struct{}{}
+			}
+		}
+	}
+	for _, v := range c.Nontriv {
+		if len(acc.Nontriv) < maxDistinct {
+			acc.Nontriv[v] = struct{}{}
+		}
+	}
+	if len(acc.Samples) < 3 {
+		acc.Samples = append(acc.Samples, c.Samples...)
+	}
+}
+
 func envInt(k string, def int) int {
 	if s := os.Getenv(k); s != "" {
 		if v, err := strconv.Atoi(s); err == nil {
@@ -351,6 +419,36 @@ func Main(t *testing.T, units ...Unit) {
 		return
 	}
 
+	// ---- isolated search: every run in a process of its own ---------------
+	// (the driver falls back to this when a worker process died: a change that keeps state in a new
+	// package-level variable - a pooled channel, say - can make the second run of a process crash the Go
+	// runtime, e.g. by using a channel of the previous run's synctest bubble)
+	if os.Getenv("VERIF_ISOLATE") != "" {
+		res.Extra = map[string]interface{}{"isolated": true}
+		for i := 0; i < maxRuns; i++ {
+			if i > 0 && time.Since(start) > budget {
+				break
+			}
+			idx := worker + i*nworkers
+			child, crash := isolatedRun(idx)
+			if child == nil {
+				res.Error = fmt.Sprintf("run %d crashed its process even when executed alone:\n%s", idx, crash)
+				break
+			}
+			mergeChild(acc, child)
+			if child.Error != "" {
+				res.Error = child.Error
+				break
+			}
+			if len(child.Violations) > 0 {
+				res.Violations = append(res.Violations, child.Violations...)
+				break
+			}
+		}
+		finish()
+		return
+	}
+
 	// ---- search mode -------------------------------------------------------
 	if hashMode {
 		res.LogHashes = map[string]string{}
@@ -405,7 +503,10 @@ func Main(t *testing.T, units ...Unit) {
 		}
 		if r.viol != nil {
 			orig := append([]uint32(nil), r.vals...)
-			minTape, minRun, nexec := minimise(u, newRun, orig, r, runSeed, idx)
+			minTape, minRun, nexec := orig, r, 0
+			if os.Getenv("VERIF_NO_MINIMISE") == "" { // (isolated runs: a second execution in this process may not be possible)
+				minTape, minRun, nexec = minimise(u, newRun, orig, r, runSeed, idx)
+			}
 			rf := ReplayFile{Property: prop, Unit: u.Name, Rule: minRun.viol.Rule, Sig: minRun.viol.Sig, Message: minRun.viol.Msg,
 				BaseSeed: seed64, RunSeed: runSeed, Index: idx, Tier: tier, Tape: minTape, OrigLen: len(orig), Scenario: minRun.scenario,
 				LogTail: minRun.log, LogHash: fmt.Sprintf("%016x", minRun.LogHash()), Package: os.Getenv("VERIF_PKG")}
